@@ -45,6 +45,8 @@ type FakeHost struct {
 
 	Dial   DialFunc
 	Stream StreamFunc
+	// ConnectCalls counts Connect calls per peer.
+	ConnectCalls map[peer.ID]int
 	// HandlerHook, if set, is called (without locks) before a handler is
 	// registered ("set") or removed ("remove"); it may block (gate).
 	HandlerHook func(op string, pid protocol.ID)
@@ -96,6 +98,12 @@ func (h *FakeHost) SetAddrs(a []ma.Multiaddr) {
 }
 
 func (h *FakeHost) Connect(ctx context.Context, pi peer.AddrInfo) error {
+	h.mu.Lock()
+	if h.ConnectCalls == nil {
+		h.ConnectCalls = map[peer.ID]int{}
+	}
+	h.ConnectCalls[pi.ID]++
+	h.mu.Unlock()
 	// as the libp2p swarm: no dial to an invalid (empty) peer id or to self
 	if err := pi.ID.Validate(); err != nil {
 		return err
